@@ -320,6 +320,7 @@ fn repair_escaped_dquote(s: &str) -> String {
 
 /// a non-ASCII character that is not alphanumeric (emoji, no-break space, ..):
 /// fine in CSS identifiers, unknown to the reader's identifier rule
+#[allow(dead_code)]
 fn repair_non_alnum(s: &str) -> String {
     let odd = |c: char| !c.is_ascii() && !c.is_alphanumeric();
     let mut out = String::new();
@@ -416,7 +417,8 @@ const REPAIRS: &[Repair] = &[
     ("css-reader-escaped-dquote", repair_escaped_dquote),
     ("private-use-escape-unterminated", repair_private_use),
     ("css-reader-at-rule-inside-supports", repair_supports_parent),
-    ("css-reader-non-alphanumeric-ident-char", repair_non_alnum),
+    // "css-reader-non-alphanumeric-ident-char" (repair_non_alnum) was repaired in
+    // /repo (4a9f638, dd7881a): it is no longer a candidate explanation
     ("at-rule-prelude-trailing-escape-space", repair_prelude_escape_space),
     ("css-reader-escaped-brace-in-prelude", repair_escaped_brace),
     ("comment-continuation-indent-grows", repair_multiline_comment),
